@@ -6,7 +6,8 @@
    ([body]: AST -> tokens, [wf]: the trees expressible in BQL). *)
 From Coq Require Import ZArith NArith List Bool String.
 Import ListNotations.
-From Verif Require Import Model.Ast Model.Lexer Model.Parser Model.Printer Proofs.ParserProofs.
+From Verif Require Import Model.Ast Model.Lexer Model.Parser Model.Printer Model.Spelling Proofs.ParserProofs
+  Proofs.LexerProofs.
 From Verif Require Model.Grammar Gen.Grammar.
 
 (* The grammar introspected from /repo on this run (tatsu.compile(bql.ebnf): rules, choices,
@@ -50,10 +51,48 @@ Theorem C06_stmt_print_injective : forall s1 s2 : stmt,
 Proof. exact stmt_print_injective. Qed.
 Print Assumptions C06_stmt_print_injective.
 
-(* LEFT PARTIAL: the lexer round trip  lex (render tokens gaps) = Some tokens  (canonical and noisy
-   spellings) is not proved; it is exercised on every run by the correspondence (texts rendered from the
-   printer's tokens with random case, literal spellings, whitespace and comments must lex+parse back).
-   FULL STATEMENT:  forall ts gaps, lex_ok ts = true -> gaps_ok ts gaps -> lex (render_with gaps ts) = Some ts. *)
+(* Characters.  A text of a token list is  g0 ++ s1 ++ g1 ++ ... ++ sn ++ gn  ([render_text]) where si is any
+   SPELLING of token i ([spell]: any letter case of keywords, identifiers and the s of a placeholder; leading
+   zeros in integers and decimals; blanks / comments inside `%( name )s`) and gi any SEPARATOR ([sep]: whitespace
+   incl. newlines and the Unicode spaces, `/* ... */` comments, `; ...` comments ended by a newline; the last one
+   may end in an open `; ...`), gi non-empty at least where the computable test [needs_space ti ti+1] holds
+   (word characters incl. '_' after a word / number / `#name` / placeholder; digits then '.' or '-' (1. and
+   2020-10-10); '.' then a digit; '<' '>' then '='; '/' then '*'; '%' then s, S or '('; '#' then a word).
+   Lexing the text gives back exactly the tokens. *)
+Theorem C06_lex_roundtrip : forall (ts : list token) (ss gs : list str) (g0 : str),
+  forallb tok_ok ts = true -> Forall2 spell ts ss ->
+  match ts with [] => sep_end g0 | _ => sep g0 end -> seps_ok ts gs ->
+  lex (render_text g0 ss gs) = Some ts.
+Proof. exact lex_roundtrip. Qed.
+Print Assumptions C06_lex_roundtrip.
+
+(* Text level: print a statement, spell and space the tokens in any allowed way, parse the text. *)
+Theorem C06_text_roundtrip : forall (s : stmt) (ss gs : list str) (g0 : str),
+  wf_stmt s = true -> lex_ok (print_stmt s) = true ->
+  Forall2 spell (print_stmt s) ss -> sep g0 -> seps_ok (print_stmt s) gs ->
+  parse_text (render_text g0 ss gs) = Some (stmt_erase s).
+Proof. exact text_roundtrip. Qed.
+Print Assumptions C06_text_roundtrip.
+
+(* The hypotheses are satisfiable for every token the lexer can produce: the canonical spelling
+   ([render_tok]: upper-case keywords, shortest decimal digits, zero-padded dates) is a spelling, and the
+   canonical text (every token followed by one blank) lexes and parses back. *)
+Theorem C06_spell_canonical : forall t : token, tok_ok t = true -> spell t (render_tok t).
+Proof. exact spell_canonical. Qed.
+Print Assumptions C06_spell_canonical.
+
+Theorem C06_lex_canonical : forall ts : list token, forallb tok_ok ts = true -> lex (render ts) = Some ts.
+Proof. exact lex_render_canonical. Qed.
+Print Assumptions C06_lex_canonical.
+
+Theorem C06_text_roundtrip_canonical : forall s : stmt,
+  wf_stmt s = true -> lex_ok (print_stmt s) = true -> parse_text (render (print_stmt s)) = Some (stmt_erase s).
+Proof. exact text_roundtrip_canonical. Qed.
+Print Assumptions C06_text_roundtrip_canonical.
+
+(* Not covered by the spelling relation (tested by the correspondence only): writing a string with the other
+   quote character and a decimal without its integer part (`.5` for `0.5`) -- the lexer then returns a token
+   that differs in a flag the parser ignores. *)
 
 (* ---------------------------------------------------------------------- *)
 (* Examples: the hypotheses are satisfiable and the precedence chain
@@ -118,3 +157,46 @@ Example C06_stmt_example :
                        [(inr (col "q"), true)] (Some (inl 1%N, inr (S "w"))) (Some 10%N)) in
   wf_stmt st = true /\ parse_tokens (print_stmt st) = Some (stmt_erase st).
 Proof. vm_compute. split; reflexivity. Qed.
+
+(* a text with mixed case, leading zeros, comments, tight and loose spacing satisfies the hypotheses of
+   C06_text_roundtrip for the statement it was rendered from *)
+Example C06_text_example :
+  let st := SSelect (ESelect false (Some [(EArith Sub (col "a") (EConst (LInt 7)), None)]) None
+                       (Some (ECmp Le (col "b") (EConst (LStr (S "x"))))) None [] None None) in
+  let ss := [S "sElEcT"; S "A"; S "-"; S "007"; S "Where"; S "b"; S "<="; S "'x'"] in
+  let gs := [S " "; S ""; S "/* c */"; S (String (Ascii.ascii_of_nat 10) ""); S "  "; S ""; S ""; S " ; bye"] in
+  print_stmt st = [TKw KSELECT; TId (S "a"); TMinus; TInt 7; TKw KWHERE; TId (S "b"); TLe; TStr (S "x")]
+  /\ wf_stmt st = true /\ lex_ok (print_stmt st) = true
+  /\ parse_text (render_text (S " ") ss gs) = Some st.
+Proof. vm_compute. repeat split. Qed.
+
+Example C06_needs_space_examples :
+  needs_space (TInt 2020) TMinus = true /\ needs_space (TInt 1) TDot = true /\ needs_space TLt TEq = true
+  /\ needs_space TSlash TStar = true /\ needs_space TPercent (TId (S "sum")) = true
+  /\ needs_space TPercent (TId (S "a")) = false /\ needs_space TPercent TLP = true
+  /\ needs_space (TKw KNOT) (TId (S "_x")) = true /\ needs_space (TTable []) (TId (S "t")) = true
+  /\ needs_space (TId (S "f")) TLP = false /\ needs_space TMinus TMinus = false
+  /\ needs_space (TStr []) (TStr []) = false.
+Proof. vm_compute. repeat split. Qed.
+
+(* ... and that choice of spellings and separators meets the hypotheses of C06_text_roundtrip *)
+Example C06_text_example_hypotheses :
+  let ts := [TKw KSELECT; TId (S "a"); TMinus; TInt 7; TKw KWHERE; TId (S "b"); TLe; TStr (S "x")] in
+  let ss := [S "sElEcT"; S "A"; S "-"; S "007"; S "Where"; S "b"; S "<="; S "'x'"] in
+  let gs := [S " "; S ""; S "/* c */"; S (String (Ascii.ascii_of_nat 10) ""); S "  "; S ""; S ""; S " ; bye"] in
+  Forall2 spell ts ss /\ sep (S " ") /\ seps_ok ts gs.
+Proof.
+  assert (Sp : forall c, is_space c = true -> sep [c]) by (intros c H; apply sep_space; [exact H|apply sep_nil]).
+  split; [|split].
+  - repeat constructor; vm_compute; try reflexivity; try discriminate; repeat split.
+  - apply Sp. reflexivity.
+  - cbn [seps_ok]. repeat split; try (intros H; vm_compute in H; discriminate H); try (intros _; reflexivity).
+    + apply Sp. reflexivity.
+    + apply sep_nil.
+    + apply (sep_comment (S " c ") []); [reflexivity|apply sep_nil].
+    + apply Sp. reflexivity.
+    + apply sep_space; [reflexivity|apply Sp; reflexivity].
+    + apply sep_nil.
+    + apply sep_nil.
+    + apply (sep_end_eol (S " ") (S " bye")); [apply Sp; reflexivity|reflexivity].
+Qed.
